@@ -126,6 +126,32 @@ def fclose (a b : Float) (rel : Float := 1e-9) : Bool :=
 def fmax (v : List Float) : Float := v.foldl (fun m x => if x > m then x else m) (v.headD 0)
 def fsum (v : List Float) : Float := v.foldl (· + ·) 0
 
+/-- inputs on which double arithmetic of sums/products is exact: integers of magnitude ≤ 2^20 -/
+def exactInts (v : List Float) : Option (List Rat) :=
+  match rats? v with
+  | some r => if r.all (fun x => x.den == 1 && rabs x ≤ 1048576) then some r else none
+  | none => none
+
+/-- exact tie: the implementation's double is exactly this rational -/
+def isRat (got : Float) (want : Rat) : Bool := floatToRat? got == some want
+def areRats (got : List Float) (want : List Rat) : Bool :=
+  got.length == want.length && (List.zip got want).all (fun p => isRat p.1 p.2)
+
+/-- the `Ext Float` reading (IEEE special values by the rules of `LogSpace.Ext`, finite values by
+the machine) must give the native answer; a non-finite value inside `fin` means a finite
+operation overflowed, which is outside that reading -/
+def extAgrees (native : Float) (e : Ext Float) : Bool :=
+  match e with
+  | .fin x => if x.isNaN || x.isInf then true else x.toBits == native.toBits
+  | .pinf => native.isInf && native > 0
+  | .ninf => native.isInf && native < 0
+  | .nan => native.isNaN
+def extResAgrees (impl : String) (native? : Option Float) (e : Res (Ext Float)) : Bool :=
+  match e, native? with
+  | .ok x, some g => extAgrees g x
+  | .error err, _ => impl == errName err
+  | .ok _, none => false
+
 /-! ### order predicates at `Rat` -/
 def rlt (a b : Rat) : Bool := decide (a < b)
 def req (a b : Rat) : Bool := decide (a = b)
@@ -202,19 +228,24 @@ def step (s : St) (op : List String) (impl : Option (List String)) : St × Strin
   | "sum" =>
     (s, showF (VecTools.sum v0), onScalar impl "sum_spec" fun g =>
       match rats? v0 with
-      | some r => [("sum_spec", closeTo g (S r) (S (r.map rabs)))]
+      | some r => [("sum_spec", closeTo g (S r) (S (r.map rabs))),
+                   ("sum_exact_rat", match exactInts v0 with | some q => isRat g (VecTools.sum q) | none => true)]
       | none => [])
   | "prod" =>
     (s, showF (VecTools.prod v0), onScalar impl "prod_spec" fun g =>
       match rats? v0 with
       | some r => let p := Spec.prod r
-        [("prod_spec", rabs p < pow2neg 900 && p != 0 || closeTo g p (rabs p))]
+        [("prod_spec", rabs p < pow2neg 900 && p != 0 || closeTo g p (rabs p)),
+         ("prod_exact_rat", match exactInts v0 with
+            | some q => rabs p ≥ 9007199254740992 || isRat g (VecTools.prod q)
+            | none => true)]
       | none => [])
   | "cumsum" =>
     (s, showV (VecTools.cumSum v0), onVec impl "cumSum_spec" fun g =>
       match rats? v0 with
       | some r => let pre := (List.range r.length).map (fun i => r.take (i + 1))
-        [("cumSum_spec", closeV g (pre.map S) (pre.map (fun l => S (l.map rabs))))]
+        [("cumSum_spec", closeV g (pre.map S) (pre.map (fun l => S (l.map rabs)))),
+         ("cumSum_exact_rat", match exactInts v0 with | some q => areRats g (VecTools.cumSum q) | none => true)]
       | none => [("cumSum_spec", g.length == v0.length)])
   | "cumprod" =>
     (s, showV (VecTools.cumProd v0), onVec impl "cumProd_spec" fun g =>
@@ -226,12 +257,18 @@ def step (s : St) (op : List String) (impl : Option (List String)) : St × Strin
   | "sumprod" =>
     (s, showRes showF (VecTools.sumProd v0 v1), dimOr v0 v1 fun _ => onScalar impl "sumProd_spec" fun g =>
       match rats? v0, rats? v1 with
-      | some a, some b => [("sumProd_spec", closeTo g (Spec.dot a b) (Spec.dot (a.map rabs) (b.map rabs)))]
+      | some a, some b => [("sumProd_spec", closeTo g (Spec.dot a b) (Spec.dot (a.map rabs) (b.map rabs))),
+          ("sumProd_exact_rat", match exactInts v0, exactInts v1 with
+            | some p, some q => (match VecTools.sumProd p q with | .ok x => isRat g x | .error _ => false)
+            | _, _ => true)]
       | _, _ => [])
   | "scalar" =>
     (s, showRes showF (VecTools.scalar v0 v1), dimOr v0 v1 fun _ => onScalar impl "scalar_spec" fun g =>
       match rats? v0, rats? v1 with
-      | some a, some b => [("scalar_spec", closeTo g (Spec.dot a b) (Spec.dot (a.map rabs) (b.map rabs)))]
+      | some a, some b => [("scalar_spec", closeTo g (Spec.dot a b) (Spec.dot (a.map rabs) (b.map rabs))),
+          ("scalar_exact_rat", match exactInts v0, exactInts v1 with
+            | some p, some q => (match VecTools.scalar p q with | .ok x => isRat g x | .error _ => false)
+            | _, _ => true)]
       | _, _ => [])
   | "scalarw" =>
     (s, showRes showF (VecTools.scalarW v0 v1 v2),
@@ -311,6 +348,9 @@ def step (s : St) (op : List String) (impl : Option (List String)) : St × Strin
             match floatToRat? m, rats? sv with
             | some mr, some sr =>
               checks [("median_spec", r.isEmpty || decide (IsMedian rlt r mr)),
+                      ("median_exact_rat", match exactInts v0 with
+                        | some q => (match VecTools.median q with | .ok x => x.1 == mr && x.2 == sr | .error _ => false)
+                        | none => true),
                       ("median_sorts", if r.length ≤ 1 then sr == r else decide (IsSortOf rlt r sr))]
             | _, _ => "FAIL:median_spec"
           | some _, some _, none => "ok"
@@ -487,12 +527,13 @@ def step (s : St) (op : List String) (impl : Option (List String)) : St × Strin
     (s, showRes showF (LogSpace.logSumExp v0), emptyOr v0 fun _ => onScalar impl "lse_bounds" fun g =>
       if !(noNaN v0) then [] else
       let M := fmax v0
-      if M.isInf then [("lse_inf", g == M)] else
+      if M.isInf then [("lse_inf", g == M), ("lse_ext_agrees", extResAgrees "" (some g) (LogSpace.logSumExp (v0.map Ext.ofFloat)))] else
       let n := Float.ofNat v0.length
       let slack := 1e-12 * (1.0 + M.abs)
       [("lse_finite", finite g),
        ("lse_bounds", M - slack ≤ g && g ≤ M + Float.log n + slack),
-       ("lse_spec", !(v0.all (fun x => x.abs ≤ 700.0)) || fclose g (Float.log (fsum (v0.map Float.exp))))])
+       ("lse_spec", !(v0.all (fun x => x.abs ≤ 700.0)) || fclose g (Float.log (fsum (v0.map Float.exp)))),
+       ("lse_ext_agrees", extResAgrees "" (some g) (LogSpace.logSumExp (v0.map Ext.ofFloat)))])
   | "lme" =>
     (s, showRes showF (LogSpace.logMeanExp v0), emptyOr v0 fun _ => onScalar impl "logMeanExp_spec" fun g =>
       if !(noNaN v0) then [] else
@@ -555,6 +596,7 @@ def step (s : St) (op : List String) (impl : Option (List String)) : St × Strin
           if a.isNaN || b.isNaN then [] else
           let M := if a > b then a else b
           [("logsum_comm", x == y || (x.isNaN && y.isNaN)),
+           ("logsum_ext_agrees", extAgrees x (LogSpace.logsum (Ext.ofFloat a) (Ext.ofFloat b))),
            ("logsum_zero_zero", !(a == b && a.isInf) || x == a),
            ("logsum_zero_identity", !(a.isInf && a < 0 && finite b) || x == b),
            ("logsum_bounds", !(finite a && finite b) || (finite x && M ≤ x && x ≤ M + log2 * (1.0 + 1e-12) + 1e-300)),
